@@ -37,7 +37,7 @@ def main(out, seed, n):
         try:
             p = tp.ThreadPool(mx, mn)
             o = {"kind": "ok", "max": p._max_threads, "min": p._min_threads}
-            if not (isinstance(o["max"], int) and isinstance(o["min"], int)):
+            if not (type(o["max"]) is int and type(o["min"]) is int):        # (bool / float / str stored raw: not the documented int)
                 o = {"kind": "badtype", "max": 0, "min": 0}
         except ValueError:
             o = {"kind": "ValueError", "max": 0, "min": 0}
